@@ -18,7 +18,7 @@ pub fn property() -> Property {
     Property {
         id: "C05",
         level: "exploration",
-        rule: "family `shape`: generated satisfiable schemes (sizes <= 65528, otherwise free: stop, missing/duplicate lines, check marks, reversed ranges, junk parts) and single-writer call sequences with payload sizes placed around the scheme's range bounds; every packet's logged write lengths must be explained by the nondeterministic reference acceptor for line k (k = 1, 2, ... in wire order), unpadded single writes from `stop` on. Family `auth`: send_authentication into a recorder, preamble = 32 hash bytes + u16 L from line 0's first range + exactly L bytes. Family `server`: a real server session never pads. Family `order`: 2-3 concurrent writers with forced pre-emptions, schemes with pairwise distinct fixed sizes, the k-th packet on the wire follows line k. Non-trivial = a packet with k < stop whose line has >= 1 range, or a packet straddling a check mark. Distinct = distinct serialized case. The shape family's call sequences also contain 'the peer sends a keep-alive request': the session's answer is a packet shaped by its line like any other.",
+        rule: "family `shape`: generated satisfiable schemes (sizes <= 65528, otherwise free: stop, missing/duplicate lines, check marks, reversed ranges, junk parts) and single-writer call sequences with payload sizes placed around the scheme's range bounds; every packet's logged write lengths must be explained by the nondeterministic reference acceptor for line k (k = 1, 2, ... in wire order), unpadded single writes from `stop` on. Family `auth`: send_authentication into a recorder, preamble = 32 hash bytes + u16 L from line 0's first range + exactly L bytes. Family `server`: a real server session never pads. Family `order`: 2-3 concurrent writers with forced pre-emptions, schemes with pairwise distinct fixed sizes, the k-th packet on the wire follows line k. Non-trivial = a packet with k < stop whose line has >= 1 range, or a packet straddling a check mark. Distinct = distinct serialized case. The shape family's call sequences also contain 'the peer sends a keep-alive request': the session's answer is a packet shaped by its line like any other. The glue family now also runs against servers with the built-in scheme, with the default used before or not, and every packet of every session is judged by the line of the scheme that is in force for it (the session's own scheme before a push, the pushed one afterwards).",
         assumptions: vec![
             "reference scheme reader and acceptor (harness/src/reference/scheme.rs, DESIGN.md Appendix A.1)",
             "a packet = the transport writes logged during one API call (single writer)",
